@@ -446,19 +446,66 @@ theorem tol_attained (vals : List Int) (maxSize : Nat) (sol : List (List Int)) (
   simp only [List.length_map] at h1
   omega
 
+/-! ### The map has no other keys than the input values -/
+
+theorem emit_keys : ∀ (sol : List (List Int)) (idx : Nat) (reps : List Int) (m : List (Int × Nat)),
+    emit sol idx = some (reps, m) → ∀ v, v ∉ sol.flatten → lookupIdx m v = none := by
+  intro sol
+  induction sol with
+  | nil =>
+    intro idx reps m he v _
+    simp only [emit, Option.some.injEq, Prod.mk.injEq] at he
+    rw [← he.2]; rfl
+  | cons c0 rest ih =>
+    intro idx reps m he v hv
+    simp only [emit] at he
+    cases hh : c0.head? with
+    | none => simp [hh] at he
+    | some f =>
+      cases hl : c0.getLast? with
+      | none => simp [hh, hl] at he
+      | some l =>
+        simp only [hh, hl] at he
+        cases hk : chk (Int.tdiv (l + f) 2) with
+        | none => simp [hk] at he
+        | some r =>
+          cases hr : emit rest (idx + 1) with
+          | none => simp [hk, hr] at he
+          | some rm =>
+            obtain ⟨reps', m'⟩ := rm
+            simp only [hk, hr, Option.some.injEq, Prod.mk.injEq] at he
+            obtain ⟨_, rfl⟩ := he
+            simp only [List.flatten_cons, List.mem_append, not_or] at hv
+            rw [lookup_map_not_mem _ _ _ _ hv.1]
+            exact ih (idx + 1) reps' m' hr v hv.2
+
+theorem idxFrom_keys : ∀ (vals : List Int) (k : Nat) (v : Int), v ∉ vals →
+    lookupIdx (idxFrom k vals) v = none := by
+  intro vals
+  induction vals with
+  | nil => intro k v _; rfl
+  | cons a t ih =>
+    intro k v hv
+    simp only [List.mem_cons, not_or] at hv
+    have : ¬ a = v := fun e => hv.1 e.symm
+    simp only [idxFrom, lookupIdx, this, if_false]
+    exact ih (k + 1) v hv.2
+
 /-! ### Assembly -/
 
 theorem compress_meets_spec_strong (values : List Int) (maxSize : Nat) (hmax : 1 ≤ maxSize)
     (hr : ∀ v ∈ values, -2147483648 ≤ v ∧ v ≤ 2147483647) :
     ∃ table m δ, compress values maxSize = .ok (table, m) ∧ 0 ≤ δ ∧
-      CompressSpecAt values maxSize table m δ ∧ Attained values m δ := by
+      CompressSpecAt values maxSize table m δ ∧ Attained values m δ ∧
+      (∀ v, v ∉ values → lookupIdx m v = none) := by
   have hsl := dedupSort_sorted values
   have hs : (dedupSort values).Pairwise (· ≤ ·) := hsl.imp (fun h => by omega)
   have hb : ∀ v ∈ dedupSort values, -2147483648 ≤ v ∧ v ≤ 2147483647 :=
     fun v hv => hr v ((mem_dedupSort v values).1 hv)
   by_cases hlen : (dedupSort values).length ≤ maxSize
   · refine ⟨0 :: dedupSort values, idxFrom 1 (dedupSort values), 0, by simp [compress, hlen],
-      Int.le_refl 0, ?_, Or.inl rfl⟩
+      Int.le_refl 0, ?_, Or.inl rfl,
+      fun v hv => idxFrom_keys _ 1 v (fun h => hv ((mem_dedupSort v values).1 h))⟩
     refine ⟨⟨rfl, by simpa using hlen⟩, ?_, ?_⟩
     · intro v hv
       obtain ⟨j, a1, a2⟩ := idxFrom_spec (dedupSort values) 1 v ((mem_dedupSort v values).2 hv)
@@ -489,7 +536,7 @@ theorem compress_meets_spec_strong (values : List Int) (maxSize : Nat) (hmax : 1
         (fun cls hc => ⟨f3 cls hc,
           List.Pairwise.sublist (List.sublist_flatten_of_mem hc) (by rw [f1]; exact hs),
           fun v hvc => hb v (by rw [← f1]; exact (List.sublist_flatten_of_mem hc).subset hvc)⟩)
-      refine ⟨0 :: reps, m, δ, ?_, d0, ?_, ?_⟩
+      refine ⟨0 :: reps, m, δ, ?_, d0, ?_, ?_, ?_⟩
       · have hh : (first :: t).head? = some first := rfl
         simp only [compress, hv, hlen, if_false, hh, hl, e1]
       · refine ⟨⟨rfl, by simp only [List.length_cons]; omega⟩, ?_, ?_⟩
@@ -522,11 +569,15 @@ theorem compress_meets_spec_strong (values : List Int) (maxSize : Nat) (hmax : 1
             exact hsl.imp (fun h => by omega)
           exact ⟨f, hmemv f hfm, w, hmemv w hw, hwf,
             emit_same_class _ 1 reps m hnd e1 cls hc f hfm w hw⟩
+      · intro v hvv
+        apply emit_keys _ 1 reps m e1 v
+        rw [f1, ← hv]
+        exact fun h => hvv ((mem_dedupSort v values).1 h)
 
 theorem compress_meets_spec (values : List Int) (maxSize : Nat) (hmax : 1 ≤ maxSize)
     (hr : ∀ v ∈ values, -2147483648 ≤ v ∧ v ≤ 2147483647) :
     ∃ table m, compress values maxSize = .ok (table, m) ∧ CompressSpec values maxSize table m := by
-  obtain ⟨table, m, δ, h1, h2, h3, _⟩ := compress_meets_spec_strong values maxSize hmax hr
+  obtain ⟨table, m, δ, h1, h2, h3, _, _⟩ := compress_meets_spec_strong values maxSize hmax hr
   exact ⟨table, m, h1, δ, h2, h3⟩
 
 end C17
